@@ -61,7 +61,7 @@ def run(chk, replay=None):
     chk.cov["mpqs_composite_D"] = sum(1 for e in evs if e["op"] == "mpqs_poly" and e.get("dprime") is False)
     chk.cov["mpqs_D_in_fbase"] = sum(1 for e in evs if e["op"] == "mpqs_poly" and 0 in e.get("dp", [1]))
     chk.cov["panics"] = sum(1 for e in evs if "outcome" in e)
-    chk.cov["notes"] = sum(1 for e in evs if e["op"] == "note")
+    chk.cov["note_events"] = sum(1 for e in evs if e["op"] == "note")
     for e in evs[:: max(1, len(evs) // 5)]:
         chk.sample({k: e[k] for k in e if k in ("op", "case", "fam", "idx", "nd", "ad", "dd", "kind")})
     chk.assumptions += ["TLC, SANY, CommunityModules Json/IOUtils/SequencesExt", "spec/lib/BigNat, BigInt",
